@@ -772,8 +772,10 @@ func (c *Context) Ln(d, x *Decimal) (Condition, error) {
 	}
 
 	// The internal precision needs to be a few digits higher because errors in
-	// series/iterations add up.
-	p := c.Precision + 2
+	// series/iterations add up, and because adding back the multiple of ln(10)
+	// after the range reduction cancels up to two leading digits when x is just
+	// outside the power-series range (1.1 < x < 1.2).
+	p := c.Precision + 4
 
 	nc := c.WithPrecision(p)
 	nc.Rounding = RoundHalfEven
